@@ -156,3 +156,13 @@ prop("C07", ["contracts.c01_client", "contracts.c02_server", "contracts.c12_bloc
               "contracts; 'does not poison the next transfer' = ReqResp discards whatever was queued before the request (arbitrary stale content) "
               "and every stream starts from its own fresh state"],
      not_decided=["timing races (a late response arriving after the flush and before the real response)"])
+
+PROPS["C01"]["modules"].append("contracts.l01_transfers")
+PROPS["C01"]["contracts"].append("DownloadTheorem")
+PROPS["C01"]["contracts"].append("UploadTheorem")
+for _p in ("C03",):
+    PROPS[_p]["modules"].append("contracts.l01_transfers")
+    PROPS[_p]["contracts"] += ["DownloadTheorem", "UploadTheorem"]
+for _p in ("C02", "C03"):
+    PROPS[_p]["modules"].append("contracts.l02_server_transfers")
+    PROPS[_p]["contracts"] += ["ServerUploadTheorem", "ServerDownloadTheorem"]
